@@ -175,6 +175,26 @@ func C04(c *fw.Ctx) {
 		c.Inconclusive("fewer than 500 accepted builds were serialised")
 	}
 	// the cost of writing the catalog on documents that repeat one construct n and 4n times (scaling.go)
+	// a pair of which only one side has a catalog cannot be compared: the number is part of the evidence (a renderer fault that makes
+	// one form illegal would otherwise pass unnoticed), and more than a quarter of the pairs is no verdict
+	{
+		sides := map[string]int{}
+		maxMuLock.Lock()
+		for k := range pvContent {
+			sides[k[:strings.LastIndex(k, "/")]]++
+		}
+		maxMuLock.Unlock()
+		single := 0
+		for _, n := range sides {
+			if n == 1 {
+				single++
+			}
+		}
+		c.Inc("inheritance", "path_variable_pairs_with_only_one_side_accepted", single)
+		if len(sides) > 0 && single*4 > len(sides) {
+			c.Inconclusive(fmt.Sprintf("%d of %d path-variable pairs have only one accepted side", single, len(sides)))
+		}
+	}
 	scalingMonitor(c, c.Pool(false, 8), []string{"json", "jsonindent"})
 	c.Finish()
 }
